@@ -154,9 +154,19 @@ inductive Prog where
   | ifLocal (t e : Prog)
 deriving Repr, Inhabited
 
+/-- the panic sites of parser.rs / rowan that the model can reach -/
+inductive Why where
+  | errorTokenWithoutMessage   -- `.expect("error token without message")` in `save`
+  | assertFailed               -- `assert!(self.eat_if(kind))`
+  | finishWithoutStart         -- rowan: finish_node with no open node
+  | badCheckpoint              -- rowan: checkpoint no longer valid
+  | noCheckpoint
+  | rootCount                  -- rowan: `finish` with other than one root
+deriving DecidableEq, Repr
+
 inductive Res where
   | ok (s : PState)
-  | panic (why : String)
+  | panic (why : Why)
   | outOfFuel
 deriving Repr
 
@@ -171,15 +181,17 @@ def error (s : PState) (msg : String) : PState :=
   { s with errors := { start := s.curStart, stop := s.curStart + byteLen s.curText, msg := msg } :: s.errors,
            afterError := true }
 
+/-- `builder.token(kind, text)` for the look-ahead token -/
+def pushTok (s : PState) : PState :=
+  { s with b := { cur := Tree.token s.cur.toSyntax s.curText :: s.b.cur, parents := s.b.parents } }
+
 /-- `save`: emit the current token as a leaf; an Error token fetches its parked message -/
 def save (s : PState) : Res :=
-  let b := { s.b with cur := Tree.token s.cur.toSyntax s.curText :: s.b.cur }
-  let s := { s with b := b }
   if s.cur == .Error then
     match s.src.takeError with
-    | (some m, src) => .ok ({ s with src := src }.error m)
-    | (none, _) => .panic "error token without message"
-  else .ok { s with afterError := false }
+    | (some m, src) => .ok ({ s.pushTok with src := src }.error m)
+    | (none, _) => .panic .errorTokenWithoutMessage
+  else .ok { s.pushTok with afterError := false }
 
 /-- `lex`: fetch the next token from the token source -/
 def lex (s : PState) : PState :=
@@ -210,13 +222,13 @@ def startNode (s : PState) (k : SyntaxKind) : PState :=
 
 def finishNode (s : PState) : Res :=
   match s.b.parents with
-  | [] => .panic "finish_node without start_node"
+  | [] => .panic .finishWithoutStart
   | (k, sibs) :: ps =>
     .ok { s with b := { cur := Tree.node k s.b.cur.reverse :: sibs, parents := ps } }
 
 def startNodeAt (s : PState) (cp : Nat × Nat) (k : SyntaxKind) : Res :=
-  if cp.1 != s.b.parents.length then .panic "checkpoint no longer valid (taken in another node)"
-  else if cp.2 > s.b.cur.length then .panic "checkpoint no longer valid, was finish_node called early?"
+  if cp.1 != s.b.parents.length then .panic .badCheckpoint
+  else if cp.2 > s.b.cur.length then .panic .badCheckpoint
   else
     let n := s.b.cur.length - cp.2
     .ok { s with b := { cur := s.b.cur.take n, parents := (k, s.b.cur.drop n) :: s.b.parents },
@@ -238,7 +250,7 @@ def exec (defs : Defs) (recover : List TokenKind) : Nat → Prog → PState → 
     | .startNodeAtCp k =>
       match s.cps with
       | cp :: _ => s.startNodeAt cp k
-      | [] => .panic "no checkpoint"
+      | [] => .panic .noCheckpoint
     | .eat => s.eat
     | .skip => PState.skip s.skipFuel s
     | .eatIf k =>
@@ -252,7 +264,7 @@ def exec (defs : Defs) (recover : List TokenKind) : Nat → Prog → PState → 
       else if s.afterError then .ok s
       else .ok (s.error (msg.getD (expectedMsg k)))
     | .assertTok k =>
-      if s.cur == k then s.eat else .panic "assertion failed: self.eat_if(kind)"
+      if s.cur == k then s.eat else .panic .assertFailed
     | .error msg => .ok (s.error msg)
     | .errorAndEat msg =>
       match (s.error msg |>.startNode .Error).eat with
